@@ -130,7 +130,20 @@ def run(diff, props):
         sh(f"rsync -a --exclude .git --exclude work /verif/ {S}/verif/")
         sh(f"sed -i 's#path = \"/repo\"#path = \"{S}/repo\"#' {S}/verif/harness/Cargo.toml")
         if not props:
-            props = ["C%02d" % i for i in range(1, 21)]
+            desc = open(diff.replace(".diff", ".txt")).read()
+            rel = {"triangulation_ext.rs": "C01 C02 C05 C09 C11 C14 C15 C07", "dcel_operations.rs": "C02 C05 C11 C14 C04",
+                   "cdt.rs": "C03 C04 C12 C13 C11", "intersection_iterator.rs": "C17 C12 C04", "refinement.rs": "C20 C07 C02",
+                   "public_handles.rs": "C18 C02", "handle_impls.rs": "C18 C19 C02 C17", "interpolation.rs": "C19",
+                   "bulk_load.rs": "C10 C01 C14 C04", "math.rs": "C06 C17 C18 C19 C08 C20", "flood_fill_iterator.rs": "C16",
+                   "hint_generator.rs": "C09 C15 C05", "triangulation.rs": "C14 C05 C09 C16", "dcel.rs": "C02 C05 C11",
+                   "delaunay_triangulation.rs": "C15 C01 C10", "line_side_info.rs": "C06", "hull_iterator.rs": "C14",
+                   "circular_iterator.rs": "C02 C18"}
+            props = []
+            for k, v in rel.items():
+                if "/" + k + ":" in desc or desc.startswith("src/" + k + ":"):
+                    props = v.split()
+            if not props:
+                props = ["C%02d" % i for i in range(1, 21)]
         hits = []
         for p in props:
             r = sh(f"VERIF_REPO={S}/repo bin/check {p} --tier quick 2>&1 | grep -E 'VIOLATION|INTERNAL|BUILD' | head -3", cwd=f"{S}/verif", timeout=3000)
